@@ -634,3 +634,78 @@ def r19d(model: Model, rr: RuleResult):
                f"(with a coloured .notdef in the sources every layer is registered as not reusable)", construct=f"_glyph_groups: stale per-iteration value {n.id}")
     else:
         rr.ok("no per-iteration value of one loop is read in a later loop")
+
+
+@RULES.rule("C06", "R06f", "a reused glyph's gradient is counter-transformed by (its own wrapper, then the inverse reuse transform) on every path", floor=1)
+def r06f(model: Model, rr: RuleResult):
+    """PaintGlyph(donor) is wrapped in the reuse transform R, so the fill must be mapped by inverse(R) AFTER the wrapper L it had: L then R^-1.  A shortcut for a
+    special R (pure translation, identity) that applies R^-1 without L, or re-applies L afterwards, displaces the gradient by (L - I) x offset."""
+    fi = model.func("write_font", "_migrate_paths_to_ufo_glyphs._update_paint_glyph")
+    cfg = cfg_of(fi)
+    uses = [c for c in calls_in(fi) if callee_tail(c) == "apply_transform" and c.args and isinstance(c.func, ast.Attribute) and "paint" in norm(c.func.value)]
+    uses += [c for c in calls_in(fi) if callee_tail(c) == "transformed" and len(c.args) == 2 and "child_paint" in norm(c.args[1]) and "reuse_result.transform" != norm(c.args[0])]
+    n = 0
+    for c in uses:
+        a = c.args[0]
+        if not isinstance(a, ast.Name):
+            continue
+        for d in cfg.reaching(cfg.node_for(c), a.id):
+            if d.value is None:
+                continue
+            n += 1
+            t = norm(d.value)
+            has_child = any(isinstance(x, ast.Name) and "child_transform" in x.id for x in ast.walk(d.value))
+            has_inv = "inverse()" in t
+            if has_child and has_inv:
+                # order: child first
+                if isinstance(d.value, ast.Call) and callee_tail(d.value) == "compose_ltr" and d.value.args and isinstance(d.value.args[0], (ast.Tuple, ast.List)) \
+                        and len(d.value.args[0].elts) == 2 and "child_transform" in norm(d.value.args[0].elts[0]) and "inverse()" in norm(d.value.args[0].elts[1]):
+                    rr.ok(f"gradient counter-transform = compose_ltr((child_transform, reuse.inverse()))  [{short(c, 50)}]")
+                elif isinstance(d.value, ast.Call) and callee_tail(d.value) == "compose_ltr" and d.value.args and isinstance(d.value.args[0], (ast.Tuple, ast.List)) \
+                        and len(d.value.args[0].elts) == 2 and "inverse()" in norm(d.value.args[0].elts[0]):
+                    rr.bad(fi, d.stmt or c, f"the gradient of a reused glyph is mapped by `{short(d.value, 90)}`: inverse reuse transform first, its own wrapper second (the reverse of "
+                           f"what undoing the reuse wrapper needs)", construct="_update_paint_glyph: counter-transform order reversed")
+                else:
+                    rr.bad_shape(fi, d.stmt or c, "gradient counter-transform is not compose_ltr((child_transform, reuse.inverse()))", construct="_update_paint_glyph: counter-transform")
+            elif ("gettranslate" in t or "translate(" in t or "identity()" in t) and not has_child:
+                rr.bad(fi, d.stmt or c, f"on one path the gradient of a reused glyph is mapped by `{short(d.value, 80)}`, which leaves out the wrapper transform the fill had (child_transform): "
+                       f"un-translating before instead of after that wrapper displaces the gradient by (L - I) x offset whenever the wrapper is not the identity "
+                       f"(objectBoundingBox gradients on non-square shapes)", construct="_update_paint_glyph: counter-transform shortcut without child_transform")
+            else:
+                rr.bad_shape(fi, d.stmt or c, "gradient counter-transform is not compose_ltr((child_transform, reuse.inverse()))", construct="_update_paint_glyph: counter-transform")
+    if n == 0:
+        raise AnalysisError("_update_paint_glyph: no transform applied to the reused glyph's gradient found")
+
+
+@RULES.rule("C06", "R06g", "the transform handed out by try_reuse is the one affine_between certified at the reuse tolerance (no fallback estimate)", floor=1)
+def r06g(model: Model, rr: RuleResult):
+    """Equal normal forms only say the shapes agree up to an affine at the (coarser) normalisation grid; affine_between is what checks every point against
+    reuse_tolerance.  A transform from any other source (bounding boxes, a guess re-checked by normalising again - which is affine invariant and always passes)
+    reuses a donor for a shape that is NOT within tolerance."""
+    fi = model.func("glyph_reuse", "GlyphReuseCache.try_reuse")
+    cfg = cfg_of(fi)
+    rets = [st for st in walk_body(fi) if isinstance(st, ast.Return) and isinstance(st.value, ast.Call) and callee_tail(st.value) == "ReuseResult"]
+    if not rets:
+        raise AnalysisError("try_reuse: return ReuseResult(...) not found")
+    from ..dataflow import deref
+    for st in rets:
+        a = st.value.args[1] if len(st.value.args) >= 2 else kwarg(st.value, "transform")
+        if a is None:
+            raise AnalysisError("try_reuse: ReuseResult without a transform")
+        srcs = []
+        if isinstance(a, ast.Name):
+            srcs = [d.value for d in cfg.reaching(cfg.node_for(st), a.id) if d.value is not None]
+        else:
+            srcs = [a]
+        other = [v for v in srcs if not (isinstance(v, ast.Call) and callee_tail(v) == "affine_between")]
+        if isinstance(a, ast.Name):
+            # every binding of the name in the function counts (a candidate computed elsewhere and kept under a condition)
+            other += [d.value for d in cfg.all_defs(a.id) if isinstance(d.value, ast.Call) and callee_tail(d.value) != "affine_between"]
+        if srcs and not other:
+            rr.ok("ReuseResult.transform comes from affine_between(donor, path, reuse_tolerance) on every path")
+        elif other and any(isinstance(v, ast.Call) or (isinstance(v, ast.Name) and any(isinstance(e_, ast.Call) and callee_tail(e_) != "affine_between"
+                                                                                            for e_ in expr_closure(cfg, cfg.node_for(st), v)[1])) for v in other):
+            rr.bad(fi, st, f"try_reuse can return a transform obtained from `{short(other[0], 70)}` instead of affine_between: nothing compares the transformed donor with the shape at "
+                   f"reuse_tolerance on that path, so a near miss outside the tolerance is painted with the donor's outline", construct="try_reuse: transform from a fallback, not affine_between")
+        else:
+            rr.bad_shape(fi, st, "ReuseResult.transform does not come from affine_between", construct="try_reuse: transform source")
